@@ -187,6 +187,18 @@ func RecvClosed(ch <-chan struct{}, label string) {
 	<-ch
 }
 
+// PollClosed replaces the non-blocking poll `select { case <-ch: ...; default: ... }` of a closed-only channel:
+// one scheduling point, then the test.
+func PollClosed(ch <-chan struct{}, label string) bool {
+	Yield(label)
+	select {
+	case <-ch:
+		return true
+	default:
+		return false
+	}
+}
+
 // Timer is the virtual replacement of *time.Timer created by AfterFunc.
 type Timer struct {
 	mu      sync.Mutex
